@@ -194,9 +194,13 @@ class SingularityCutter(Worker):
 
         # First compute the closest point from singularities to feature graph
         closest_v = set()
+        reached = set() # vertices of the paths flagged so far. A later path stops when it meets one of them : two paths that cross (equal lengths) would otherwise close a cycle of forced cuts around some faces
         for v in self.singularities:
-            id_feat, path = shortest_path_to_vertex_set(self.input_mesh, v, self.feat_detector.feature_vertices, weights=self.edge_lengths)
-            closest_v.add(id_feat)
+            targets = set(self.feat_detector.feature_vertices) | reached
+            id_feat, path = shortest_path_to_vertex_set(self.input_mesh, v, targets, weights=self.edge_lengths)
+            if id_feat in self.feat_detector.feature_vertices:
+                closest_v.add(id_feat)
+            reached.update(path)
             for i in range(len(path)-1):
                 u,v = path[i], path[i+1]
                 e = self.input_mesh.connectivity.edge_id(u,v)
